@@ -235,9 +235,9 @@ def autoSampleFrom : Nat → Nat → Nat → Nat
 def autoSample (total : Nat) : Nat := autoSampleFrom 8 1000 total
 
 open Uft.Json in
-def graphvizLine (parent n : Node) : List Nat :=
-  b!"    " ++ [34] ++ parent.name ++ b!"\" -> " ++ [34] ++ n.name ++ [34] ++
-  b!" [xlabel = \"" ++ dec n.calls ++ b!"\"]\n"
+def graphvizLine (pname nname : List Nat) (calls : Nat) : List Nat :=
+  b!"    " ++ [34] ++ pname ++ b!"\" -> " ++ [34] ++ nname ++ [34] ++
+  b!" [xlabel = \"" ++ dec calls ++ b!"\"]\n"
 
 open Uft.Json in
 def graphvizText (version : List Nat) (cmdline : Option (List Nat)) (root : Node) : List Nat :=
@@ -246,7 +246,7 @@ def graphvizText (version : List Nat) (cmdline : Option (List Nat)) (root : Node
    | some c => b!"# command_line \"" ++ c ++ b!"\"\n"
    | none => []) ++
   b!"\ndigraph \"" ++ root.name ++ b!"\" { \n" ++
-  ((walk root).flatMap fun (par, _, n) => if n.calls = 0 then [] else graphvizLine par n) ++
+  ((walk root).flatMap fun (par, _, n) => if n.calls = 0 then [] else graphvizLine par.name n.name n.calls) ++
   b!"}\n"
 
 open Uft.Json in
